@@ -398,7 +398,37 @@ sim::CaseResult IoSim::run(const sim::Options &, const Json &plan)
     std::string kind = plan.gets("kind");
     std::string sfx = " kind=" + kind;
     ompl::RNG::setSeed((std::uint_fast32_t)plan.geti("ompl_seed", 1));
-    ob::StateSpacePtr sp = buildSpace(plan["space"]);
+    ob::StateSpacePtr sp;
+    {
+        // in a third of the cases the space reaches its planned shape in two steps: it is set up, then it grows by its last
+        // dimension / component (a legal change while it is not locked), and is set up again by the space information below
+        const Json &sj = plan["space"];
+        const bool grow = plan.geti("ompl_seed", 1) % 3 == 0;
+        if (grow && sj.gets("t") == "rv" && sj.geti("n", 2) >= 2)
+        {
+            auto rv = std::make_shared<ob::RealVectorStateSpace>((unsigned)sj.geti("n", 2) - 1);
+            rv->setBounds(-3, 7);
+            rv->setup();
+            rv->addDimension(-3, 7);
+            sp = rv;
+            res.probes["space-grown-after-its-first-setup"]++;
+        }
+        else if (grow && sj.gets("t") != "so2" && sj.gets("t") != "so3" && sj.gets("t") != "se2" && sj.gets("t") != "se3" && sj.gets("t") != "time" &&
+                 sj.gets("t") != "discrete" && sj.gets("t") != "rv" && sj["c"].size() >= 2)
+        {
+            auto cs = std::make_shared<ob::CompoundStateSpace>();
+            const auto &comps = sj["c"].items();
+            for (size_t i = 0; i + 1 < comps.size(); i++)
+                cs->addSubspace(buildSpace(comps[i]), comps[i].getd("w", 1.0));
+            cs->setup();
+            cs->addSubspace(buildSpace(comps.back()), comps.back().getd("w", 1.0));
+            cs->lock();
+            sp = cs;
+            res.probes["space-grown-after-its-first-setup"]++;
+        }
+        else
+            sp = buildSpace(sj);
+    }
     ob::StateSpacePtr other = buildSpace(plan["other_space"]);
     auto si = std::make_shared<ob::SpaceInformation>(sp);
     si->setStateValidityChecker([](const ob::State *) { return true; });
